@@ -116,9 +116,15 @@ func (w *World) Abandon() {
 
 // Close shuts the world down.
 func (w *World) Close() {
-	// closing a channel under a running update handler is not safe in the library
-	// (send on a closed watcher pipe), so let everything come to rest first
-	w.Quiesce()
+	// Closing a client under a running handler is not safe in the library (send on a closed
+	// watcher pipe), so let everything come to rest first - including what only the library's own
+	// goroutines are doing: a channel with a staged update (accept sent, state not enabled yet) or
+	// an enabled version not yet handed to the watcher. A world that does not come to rest is
+	// abandoned instead (its goroutines are left alone).
+	if !w.quiesceForClose() {
+		w.Abandon()
+		return
+	}
 	w.once.Do(func() {
 		close(w.stop)
 		for _, p := range w.Parties {
@@ -126,6 +132,75 @@ func (w *World) Close() {
 		}
 		w.Bus.Close()
 	})
+}
+
+func (w *World) quiesceForClose() bool {
+	deadline := time.Now().Add(3 * time.Second)
+	stable := 0
+	for {
+		ok := w.Bus.Drained() && w.Ledger.Idle() && atomic.LoadInt64(&w.Busy) == 0
+		if ok {
+			for _, p := range w.Parties {
+				if p.libraryBusy() {
+					ok = false
+					break
+				}
+			}
+		}
+		if ok {
+			stable++
+			if stable >= 5 {
+				return true
+			}
+		} else {
+			stable = 0
+		}
+		if time.Now().After(deadline) {
+			return false
+		}
+		time.Sleep(100 * time.Microsecond)
+	}
+}
+
+// libraryBusy tells, from the recorded persister events and publications, whether one of the
+// party's channels is in the middle of something only the library's goroutines know about.
+func (p *Party) libraryBusy() bool {
+	last := map[channel.ID]channel.Phase{}
+	newest := map[channel.ID]uint64{}
+	for _, e := range p.Rec.Events() {
+		if e.Kind == recpr.Removed {
+			delete(last, e.ID)
+			delete(newest, e.ID)
+			continue
+		}
+		last[e.ID] = e.Phase
+		if e.Kind == recpr.Enabled && e.Current.State != nil {
+			newest[e.ID] = e.Current.State.Version
+		}
+	}
+	for _, ph := range last {
+		if ph == channel.InitSigning || ph == channel.Signing || ph == channel.Funding {
+			return true
+		}
+	}
+	p.mu.Lock()
+	defer p.mu.Unlock()
+	for id, v := range newest {
+		pubs := p.published[id]
+		if len(pubs) == 0 {
+			continue // not watched, or the publisher was installed after this version
+		}
+		max := uint64(0)
+		for _, x := range pubs {
+			if x > max {
+				max = x
+			}
+		}
+		if max < v {
+			return true
+		}
+	}
+	return false
 }
 
 // UpdatePolicy decides about an incoming update: accept or reject, after an optional delay.
